@@ -147,9 +147,16 @@ impl<'a> SpannedDiagnosticFormatter<'a> {
                 // If we're at the end print the message.
                 out.push_str(&format!(" {}", s));
             } else {
-                // Otherwise set next span to start at the beginning of the next line.
+                // Otherwise set next span to start at the beginning of the next line: `lines()`
+                // strips a trailing "\n" or "\r\n".
                 out.push('\n');
-                span = Span::new(line_start_byte + source_line.len() + 1, span.end())
+                let eol = line_start_byte + source_line.len();
+                let eol_len = if self.src[eol..].starts_with("\r\n") {
+                    2
+                } else {
+                    1
+                };
+                span = Span::new(eol + eol_len, span.end())
             }
         }
 
